@@ -282,3 +282,20 @@ pub fn replay(v: &Value) -> Value {
     json!({"histories": 1, "oracle_failures": match o.failure { Some(w) => vec![json!({"why": w, "case": hist_json(&h), "trace": o.trace})], None => vec![] },
            "cache_hits": o.hits, "searches": o.searches})
 }
+
+/// Engine-level form of the saturation probe: Euclidean metric (queries are not normalised), two
+/// documents outside the unit box; the second search is answered from the first one's entry.
+pub fn saturation_probe_engine() -> Value {
+    let h = Hist {
+        dim: 2,
+        cap: 4,
+        ops: vec![
+            EOp::Insert { id: 1, v: vec![5.0, 3.0] },
+            EOp::Insert { id: 2, v: vec![2.0, 7.0] },
+            EOp::Search { scope: 0, q: vec![5.0, 3.0], k: 1 },
+            EOp::Search { scope: 0, q: vec![2.0, 7.0], k: 1 },
+        ],
+    };
+    let o = run(&h);
+    json!({"history": hist_json(&h), "trace": o.trace, "oracle": o.failure, "cache_hits": o.hits})
+}
